@@ -29,6 +29,10 @@ pub enum Env {
     /// TLS client only: the TCP connection is accepted but the server presents a certificate of
     /// another authority, so the handshake fails: a failed connect. Plain TCP: same as Refused.
     BadCert,
+    /// TLS client only: the TCP connection is accepted and then nothing is ever sent, so the TLS
+    /// handshake never completes; the channel is "connecting" for as long as the peer likes, and
+    /// is not connected. Plain TCP: same as AcceptSilent.
+    HandshakeStall,
 }
 
 #[derive(Copy, Clone, Debug, PartialEq, Eq, Hash, Serialize, Deserialize)]
@@ -57,6 +61,9 @@ pub struct C13Case {
     /// a TLS handshake before it behaves as the environment says
     #[serde(default)]
     pub tls: bool,
+    /// the host is given by name ("localhost", resolved at every attempt) instead of by address
+    #[serde(default)]
+    pub by_name: bool,
 }
 
 pub fn arb_c13() -> BoxedStrategy<C13Case> {
@@ -77,9 +84,11 @@ pub fn arb_c13() -> BoxedStrategy<C13Case> {
         2 => Just(Env::AcceptSilent),
         3 => Just(Env::Served),
         1 => Just(Env::BadCert),
+        1 => Just(Env::HandshakeStall),
     ];
     (
         prop::bool::weighted(0.35),
+        prop::bool::weighted(0.2),
         20u16..40,
         1u16..=4,
         proptest::option::weighted(0.5, 1u8..3),
@@ -89,7 +98,7 @@ pub fn arb_c13() -> BoxedStrategy<C13Case> {
         any::<bool>(),
         proptest::option::weighted(0.5, (0usize..14, any::<bool>())),
     )
-        .prop_map(|(tls, min_ms, mult, max_timeouts, envs, mut gates, idle, end_by_drop, early_end)| {
+        .prop_map(|(tls, by_name, min_ms, mult, max_timeouts, envs, mut gates, idle, end_by_drop, early_end)| {
             // the first gate (initial Disabled) usually enables the channel
             if !gates[0].contains(&Act::Enable) && gates[0].len() < 3 {
                 gates[0].push(Act::Enable);
@@ -109,6 +118,7 @@ pub fn arb_c13() -> BoxedStrategy<C13Case> {
                 idle,
                 end_by_drop,
                 tls,
+                by_name,
             }
         })
         .boxed()
@@ -182,6 +192,19 @@ fn run_once(case: &C13Case, slow: u32, facet: Facet) -> CaseResult {
         let options = ClientOptions::default()
             .max_queued_requests(16)
             .max_response_timeouts(case.max_timeouts.and_then(|n| std::num::NonZeroUsize::new(n as usize)));
+        // only where the name resolves to the loopback address the harness listens on
+        let name_ok = {
+            use std::net::ToSocketAddrs;
+            ("localhost", addr.port())
+                .to_socket_addrs()
+                .map(|mut it| it.any(|a| a.ip() == addr.ip()))
+                .unwrap_or(false)
+        };
+        let host = if case.by_name && name_ok {
+            HostAddr::dns("localhost".to_string(), addr.port())
+        } else {
+            HostAddr::ip(addr.ip(), addr.port())
+        };
         let (channel, task) = if case.tls {
             let tls_config = rodbus::client::TlsClientConfig::full_pki(
                 Some("test.com".to_string()),
@@ -193,7 +216,7 @@ fn run_once(case: &C13Case, slow: u32, facet: Facet) -> CaseResult {
             )
             .map_err(|e| format!("INFRA: TlsClientConfig failed: {}", e))?;
             rodbus::client::create_tls_client_task_with_options(
-                HostAddr::ip(addr.ip(), addr.port()),
+                host.clone(),
                 rodbus::doubling_retry_strategy(min, max),
                 tls_config,
                 Some(Box::new(Gate { tx: gtx })),
@@ -201,7 +224,7 @@ fn run_once(case: &C13Case, slow: u32, facet: Facet) -> CaseResult {
             )
         } else {
             rodbus::client::create_tcp_client_task_with_options(
-                HostAddr::ip(addr.ip(), addr.port()),
+                host.clone(),
                 rodbus::doubling_retry_strategy(min, max),
                 Some(Box::new(Gate { tx: gtx })),
                 options,
@@ -272,8 +295,18 @@ fn run_once(case: &C13Case, slow: u32, facet: Facet) -> CaseResult {
                                 // drain the queue: Disabled and Wait gates, request ahead of any
                                 // enable sent at this gate
                                 let pending_enable = (processed_min..settings.len()).any(|j| settings[j]);
-                                let fast = matches!(gate, Some("Disabled") | Some("WaitAfterFailedConnect") | Some("WaitAfterDisconnect"))
+                                // ... and while a TLS handshake is pending (the harness injects
+                                // operations there only after nothing has happened for a while)
+                                let in_stalled_handshake = gate.is_none()
+                                    && tls
+                                    && last_env == Some(Env::HandshakeStall)
+                                    && states.last().map(|s| state_name(&s.0)) == Some("Connecting");
+                                let fast = (matches!(gate, Some("Disabled") | Some("WaitAfterFailedConnect") | Some("WaitAfterDisconnect"))
+                                    || in_stalled_handshake)
                                     && !pending_enable;
+                                if in_stalled_handshake {
+                                    labels.push("request_during_stalled_handshake");
+                                }
                                 // a long response timeout only where the request must fail at once
                                 // with NoConnection; a shutdown queues behind an outstanding
                                 // request, so everything else uses a short one
@@ -397,6 +430,12 @@ fn run_once(case: &C13Case, slow: u32, facet: Facet) -> CaseResult {
                     let disable_possible = (processed_min..settings.len()).any(|j| !settings[j]) || name == "Disabled";
                     if let (Some(p), Some(env)) = (prev, last_env) {
                         match (state_name(&p), env) {
+                            ("Connecting", Env::HandshakeStall) if tls => {
+                                if name == "Connected" {
+                                    return Err("Connected reported although the TLS handshake never completed".to_string());
+                                }
+                                labels.push("left_a_stalled_handshake");
+                            }
                             ("Connecting", Env::Refused) | ("Connecting", Env::BadCert) => {
                                 if !(name == "WaitAfterFailedConnect" || (name == "Disabled" && disable_possible) || name == "Shutdown") {
                                     return Err(format!("connection refused, but the next state is {} instead of a wait", name));
@@ -479,6 +518,17 @@ fn run_once(case: &C13Case, slow: u32, facet: Facet) -> CaseResult {
                                     };
                                     acc.fetch_add(1, Ordering::SeqCst);
                                     tokio::spawn(async move {
+                                        if tls && env == Env::HandshakeStall {
+                                            // hold the connection open without a single byte
+                                            let mut tcp = tcp;
+                                            let mut b = [0u8; 64];
+                                            loop {
+                                                match tcp.read(&mut b).await {
+                                                    Ok(0) | Err(_) => return,
+                                                    Ok(_) => {}
+                                                }
+                                            }
+                                        }
                                         let mut s: Link = if tls {
                                             let cert = if env == Env::BadCert { "server_ca2" } else { "server_ok" };
                                             let acceptor = tokio_rustls::TlsAcceptor::from(super::c09::peer_server_config(super::c09::Offer::Both, cert));
@@ -499,7 +549,7 @@ fn run_once(case: &C13Case, slow: u32, facet: Facet) -> CaseResult {
                                                 let _ = s.write_all(&[0, 0, 0x77, 0x77, 0, 2, 1, 3]).await;
                                                 tokio::time::sleep(Duration::from_millis(300)).await;
                                             }
-                                            Env::AcceptSilent => {
+                                            Env::AcceptSilent | Env::HandshakeStall => {
                                                 let mut b = [0u8; 256];
                                                 while let Ok(n) = s.read(&mut b).await {
                                                     if n == 0 {
@@ -663,6 +713,9 @@ fn run_once(case: &C13Case, slow: u32, facet: Facet) -> CaseResult {
         if labels_tls {
             ok.label("tls_client");
         }
+        if case.by_name && name_ok {
+            ok.label("host_by_name");
+        }
         if failed_in_a_row >= 2 || states.iter().filter(|s| matches!(s.0, ClientState::WaitAfterFailedConnect(_))).count() >= 2 {
             ok.label("doubling_observed");
         }
@@ -700,6 +753,7 @@ pub fn arb_c14b() -> BoxedStrategy<C13Case> {
                 idle: vec![],
                 end_by_drop,
                 tls,
+                by_name: false,
             }
         })
         .boxed()
